@@ -178,13 +178,16 @@ def setError (s : MuxSt) (e : Err) : MuxSt :=
   | some _ => s
   | none => { s with err := some e }
 
+/-- `conn.close()`: closes doneC of object `h` -/
+def closeAt (objs : List Conn) (h : Nat) : List Conn :=
+  match objs[h]? with
+  | some c => objs.set h ({ c with closed := true } : Conn)
+  | none => objs
+
 /-- close the conn objects whose handles are listed -/
 def closeHandles (objs : List Conn) : List Nat → List Conn
   | [] => objs
-  | h :: hs =>
-    closeHandles (match objs[h]? with
-      | some c => objs.set h ({ c with closed := true } : Conn)
-      | none => objs) hs
+  | h :: hs => closeHandles (closeAt objs h) hs
 
 /-- `mux.Close` (mux.go:208-220): once; closes every conn in the map, doneC, the trunk -/
 def doClose (s : MuxSt) : MuxSt :=
@@ -198,7 +201,7 @@ def step (s : MuxSt) : Ev → Option MuxSt
   | .openNew id h =>
     if id ≠ 0 ∧ AList.lookup s.cmap id = none ∧ h = s.objs.length then
       some { s with objs := s.objs ++ [{ id := id, base := countFor id s.seen }],
-                    cmap := s.cmap ++ [(id, h)] }
+                    cmap := AList.insert s.cmap id h }
     else none
   | .openOld id h =>
     if id ≠ 0 ∧ AList.lookup s.cmap id = some h then some s else none
@@ -305,13 +308,14 @@ def readErrors : List Ev → List Err
   | .read _ _ _ (.err e) :: es => e :: readErrors es
   | _ :: es => readErrors es
 
-/-- the guard of C10/C11: every successful Read used a buffer at least as long as the
-    frame it returned (`n ≤ blen`), and no Read hit ENOMEM. -/
-def bigBuffers : List Ev → Bool
-  | [] => true
-  | .read _ blen _ (.data _ n) :: es => decide (n ≤ blen) && bigBuffers es
-  | .read _ _ _ .enomem :: _ => false
-  | _ :: es => bigBuffers es
+/-- the guard of C10/C11 (DESIGN §6 #12): a successful Read used a buffer at least as long
+    as the frame it returned (`n ≤ blen`), and no Read hit ENOMEM. -/
+def Ev.guard : Ev → Bool
+  | .read _ blen _ (.data _ n) => decide (n ≤ blen)
+  | .read _ _ _ .enomem => false
+  | _ => true
+
+def bigBuffers (tr : List Ev) : Bool := tr.all Ev.guard
 
 /-! ## Part 3 — the listener wrapper (`pkg/net/conn.go`) -/
 
